@@ -733,8 +733,8 @@ def random_histories(rng, count, max_len, steps_n, max_vals=3):
 
 
 def big_bytes_scripts(lens, prop):
-    """Length-preserving ownership moves of arrays whose BYTE size is large (1 KiB tracked elements: 97 KiB at
-    N = 97, 1 MiB at N = 1024): conversions to and from Vec / Box / Box<[T]> / native arrays, the functional
+    """Length-preserving ownership moves of arrays whose BYTE size is large (256-byte tracked elements: 256 KiB at
+    N = 1024; the kind is called tk1k for its first size): conversions to and from Vec / Box / Box<[T]> / native arrays, the functional
     operations, by-value iteration abandoned half-way.  A fast path selected by byte size is on the path here."""
     out = []
 
@@ -788,7 +788,7 @@ def c03(tier, seed):
     c.conform(binary, with_etys(scns, ["tk", "zst", "plain"]), "tlc-simulation")
     rnd = random_histories(rng, 30 if tier == "quick" else 300, 12, 40 if tier == "quick" else 120)
     c.conform(binary, with_etys(rnd, ["tk", "zst", "plain"]), "random-histories")
-    c.conform(binary, big_bytes_scripts([97] if tier == "quick" else [97, 1024], "C03"), "big-bytes")
+    c.conform(binary, big_bytes_scripts([1024] if tier == "quick" else [97, 1024], "C03"), "big-bytes")
     if tier != "quick":
         c.asan_pass("random-histories")
         c.asan_pass("tlc-simulation")
@@ -1125,7 +1125,7 @@ def c15(tier, seed):
             if s["d"]["op"] not in ("box_map", "box_fold", "box_zip", "box_clone")]
     c.cov["bounds"] = {"N": lens, "source lengths": "0, N-1, N, N+1", "vec capacity": "len and len+2"}
     c.conform(binary, scns, "conversions")
-    c.conform(binary, [s for s in big_bytes_scripts([97] if tier == "quick" else [97, 1024], "C15") if s.get("alloc")], "big-bytes")
+    c.conform(binary, [s for s in big_bytes_scripts([1024] if tier == "quick" else [97, 1024], "C15") if s.get("alloc")], "big-bytes")
     big = [{"case": "big", "prop": "C15", "d": {"op": op, "shape": sh}} for op in BIG_OPS for sh in BIG_SHAPES]
     c.conform(binary, big, "big-on-small-stack", sub="big")
     c.assumptions.append("O(1) rule: no allocator event between call and ret and the same block id afterwards, measured by the harness's recording global allocator")
